@@ -296,6 +296,73 @@ def body_postconditions(prog, res):
     return out
 
 
+FIELD_CODECS = ("btokCVCBodyEnc", "btokCVCBodyDec")
+
+
+def check_field_extents(prog, res):
+    """R17.4: the encoder and the decoder of the certificate body handle each fixed-size field of the certificate
+    structure over one and the same number of octets: the presence test of an optional field (memIsZero), the octets
+    encoded and the octets decoded agree.  A presence test over fewer octets than are encoded drops a non-zero field
+    from the signed body (round-9 seed C17/2); an encoder and a decoder that disagree cannot parse back what was made."""
+    from . import docext
+    doc, _ = docext.load(ir.REPO)
+    uses = {}          # field -> [(function, callee, length, line)]
+    for fn in FIELD_CODECS:
+        f = prog.funcs.get(fn)
+        if f is None or f.body is None:
+            raise AnalysisBroken("R17.4: %s vanished" % fn)
+        for c in ir.walk(f.body):
+            if c.get("k") != "Call" or not c.get("callee"):
+                continue
+            proto = prog.funcs.get(c["callee"]) or prog.protos.get(c["callee"])
+            d = doc.get(c["callee"]) or {}
+            if proto is None:
+                continue
+            names = {p_["n"]: i for i, p_ in enumerate(proto.params)}
+            for i, a in enumerate(c["a"]):
+                m = strip(a)
+                while isinstance(m, dict) and m.get("k") == "Paren":
+                    m = strip(m["e"])
+                if not (isinstance(m, dict) and m.get("k") == "Member" and "[" in (m.get("t") or "")) or i >= len(proto.params):
+                    continue
+                l = d.get(proto.params[i]["n"])
+                if not l or set(l) - {""} and len(set(l) - {""}) != 1:
+                    continue
+                total = l.get("", 0)
+                ok = True
+                for k_, cf in l.items():
+                    if not k_:
+                        continue
+                    v = ir.int_val(c["a"][names[k_]]) if k_ in names and names[k_] < len(c["a"]) else None
+                    if v is None:
+                        ok = False
+                    else:
+                        total += cf * v
+                if ok:
+                    uses.setdefault(m["f"], []).append((fn, c["callee"], total, c.get("l") or f.line))
+    n = 0
+    for fld, us in sorted(uses.items()):
+        if len(us) < 2:
+            continue
+        n += 1
+        f = prog.funcs[us[0][0]]
+        lens = sorted({u[2] for u in us})
+        text = ", ".join("%s:%s(%d)" % (u[0], u[1], u[2]) for u in us)
+        if len(lens) == 1:
+            res.proved("R17.4-field-extents-agree", function=us[0][0], file=f.relfile, line=us[0][3], construct="field %s" % fld,
+                       detail="tested / encoded / decoded over %d octets at every site: %s" % (lens[0], text))
+        else:
+            odd = min(us, key=lambda u: sum(1 for v in us if v[2] == u[2]))
+            res.violation("R17.4-field-extents-agree", function=odd[0], file=prog.funcs[odd[0]].relfile, line=odd[3],
+                          construct="field %s" % fld,
+                          detail="the certificate field %s is handled over different numbers of octets: %s -- what one side "
+                                 "tests or writes is not what the other encodes or reads" % (fld, text))
+    if n < 4:
+        raise AnalysisBroken("R17.4: %d fixed-size certificate fields with constant extents found, 4 confirmed by reading "
+                             "(hat_eid, hat_esign, from, until)" % n)
+    return n
+
+
 def run(tier, seed=0):
     res = Result("C17", "other", tier)
     prog = ir.Program("w64")
@@ -311,6 +378,7 @@ def run(tier, seed=0):
     table = mustcall.load_table("token.json")
     n += mustcall.check_table(prog, res, "R17.1-content-checks", table)
     check_sm(prog, res)
+    n += check_field_extents(prog, res)
     res.floor("token-layer obligations", n, 30)
     res.coverage["explanation"] = (
         "Must-pass-through analysis on all paths: certificate validation (Val, Val2, Iss, Match, Unwrap, Check2) reports "
